@@ -158,7 +158,8 @@ def judge(case, results, own=OWN):
     st["dropin_adds_applied"] = sum(1 for e in res.events if e.get("ev") == "dropin_result" and e["op"] == "add" and e["ok"])
     st["dropin_adds_rolled_back"] = sum(1 for e in res.events if e.get("ev") == "dropin_result" and e["op"] == "add" and not e["ok"])
     for prop, rule, disc, detail in viol:
-        if prop in own or prop == "ANY":
+        # "each detector of every enabled ruleset executes exactly once" is C02's own clause whatever state the ruleset is in
+        if prop in own or prop == "ANY" or (rule == "detector-once" and prop == "C06" and "C02" in own):
             v.bad(rule, disc, detail)
         else:
             v.count("other_property_divergence:" + prop + ":" + rule)
